@@ -151,8 +151,8 @@ Lemma sstep_port x e last : sinv x last -> ph (ss x) <> PDone ->
   (ph (ss x') <> PDone -> pfinal (pimg last) (port_trace o) = pimg (final last (listens_of o))).
 Proof.
   intros [Hnc Hinv] Hnd. destruct (Hinv Hnd) as [Hc Hlast]. cbn [sstep].
-  pose proof (step_good cfg (ss x) e last Hc Hnd) as (G1 & G2 & _). pose proof (step_lc cfg (ss x) e) as LC1.
-  destruct (step cfg (ss x) e) as [s1 o1]. unfold lc in LC1. cbn [fst snd] in *.
+  pose proof (step_good cfg (ss x) (rtu_event (ss x) e) last Hc Hnd) as (G1 & G2 & _). pose proof (step_lc cfg (ss x) (rtu_event (ss x) e)) as LC1.
+  destruct (step cfg (ss x) (rtu_event (ss x) e)) as [s1 o1]. unfold lc in LC1. cbn [fst snd] in *.
   destruct (one_or_none _ LC1) as [E1|[y E1]].
   - (* no notification: the phase cannot be Connecting *)
     rewrite E1 in *. cbn [final fold_left] in G2.
@@ -193,9 +193,9 @@ Lemma sdone : forall es x, ph (ss x) = PDone -> port_trace (snd (srun cfg x es))
 Proof.
   induction es as [|e es IH]; intros x Hd; [reflexivity|]. cbn [srun].
   destruct e as [e|ok]; cbn [sstep].
-  - destruct (done_silent cfg (ss x) e Hd) as (H1 & H2 & _).
-    rewrite (settle_open_other (open_ok x) (step cfg (ss x) e)) by (rewrite H1; discriminate).
-    destruct (step cfg (ss x) e) as [s1 o1]. cbn [fst snd] in *.
+  - destruct (done_silent cfg (ss x) (rtu_event (ss x) e) Hd) as (H1 & H2 & _).
+    rewrite (settle_open_other (open_ok x) (step cfg (ss x) (rtu_event (ss x) e))) by (rewrite H1; discriminate).
+    destruct (step cfg (ss x) (rtu_event (ss x) e)) as [s1 o1]. cbn [fst snd] in *.
     specialize (IH {| ss := s1; open_ok := open_ok x |} H1). destruct (srun cfg _ es) as [x2 o2]. cbn [snd] in *.
     rewrite port_trace_app, IH. unfold port_trace. rewrite H2. reflexivity.
   - specialize (IH {| ss := ss x; open_ok := ok |} Hd). destruct (srun cfg _ es) as [x2 o2]. cbn [snd app] in *. exact IH.
@@ -233,7 +233,8 @@ Fixpoint expand (x : sstate) (es : list sevent) : list event :=
   match es with
   | [] => []
   | SSetOpen ok :: r => expand {| ss := ss x; open_ok := ok |} r
-  | SEnv e :: r =>
+  | SEnv e0 :: r =>
+      let e := rtu_event (ss x) e0 in
       let s1 := fst (step cfg (ss x) e) in
       if is_connecting (ph s1)
       then e :: EvConnect (open_ok x) :: expand {| ss := fst (step cfg s1 (EvConnect (open_ok x))); open_ok := open_ok x |} r
@@ -245,7 +246,7 @@ Theorem serial_is_tcp_run : forall es x,
 Proof.
   induction es as [|e es IH]; intros x; [split; reflexivity|].
   destruct e as [e|ok].
-  - cbn [srun expand sstep]. destruct (step cfg (ss x) e) as [s1 o1] eqn:E1. cbn [fst].
+  - cbn [srun expand sstep]. cbv zeta. destruct (step cfg (ss x) (rtu_event (ss x) e)) as [s1 o1] eqn:E1. cbn [fst].
     destruct (is_connecting (ph s1)) eqn:Ec.
     + assert (Hc : ph s1 = PConnecting) by (destruct (ph s1); try discriminate; reflexivity).
       rewrite (settle_open_conn (open_ok x) (s1, o1) Hc). cbn [fst snd run]. rewrite E1.
